@@ -215,6 +215,9 @@ func runChunkSeq(c *Ctx, r *Rng, limit int, nops int) {
 		case x < 82: // positional write
 			k := []int{1, 2, 4, 8}[r.Intn(4)]
 			p := r.Intn(ch.Size() + 3)
+			if r.Chance(12) { // a negative position is refused (ErrInvalidIndex), never indexed
+				p = -1 - r.Intn(9)
+			}
 			v := r.U64()
 			if k < 8 {
 				v &= 1<<(8*uint(k)) - 1
